@@ -43,7 +43,7 @@ def ty_from_mich(m):
 
 def pushable(t):
     """can a value of this type be written as a PUSH literal (no contract / operation outside a lambda's signature)"""
-    if t[0] in ('contract', 'operation', 'never'):
+    if t[0] in ('contract', 'operation', 'never', 'big_map'):
         return False
     if t[0] == 'lambda':
         return True
@@ -522,6 +522,8 @@ class Gen:
             return [P('NIL', ty_mich(t[1]))]
         if p == 'map':
             return [P('EMPTY_MAP', ty_mich(t[1]), ty_mich(t[2]))]
+        if p == 'big_map':
+            return [P('EMPTY_BIG_MAP', ty_mich(t[1]), ty_mich(t[2]))]
         if p == 'pair':
             return self.produce(t[2]) + self.produce(t[1]) + [P('PAIR')]
         if p == 'or':
@@ -587,6 +589,7 @@ class Gen:
         add(1.6, 'PACKING', lambda: self._pack_idiom(st))
         add(2.0, 'UNPACKING', lambda: self._unpack_idiom(st))
         add(0.9, 'SIGNATURES', lambda: self._checksig_idiom(st))
+        add(1.6, 'BIGMAPS', lambda: self._bigmap_idiom(st))
         if not self.in_lambda:
             add(0.6, 'SELF', lambda: self._self(st))
         if depth > 0:
@@ -1363,6 +1366,64 @@ class Gen:
             push_msg = [P('PUSH', P('bytes'), {'bytes': msg})]
         code = push_msg + [P('PUSH', P('signature'), {'string': sig}), P('PUSH', P('key'), {'string': key}), P('CHECK_SIGNATURE')]
         return code, [('bool',)] + st
+
+
+    # ---- big maps created in the run ----------------------------------------------------------------------------------
+    def _bigmap_idiom(self, st):
+        """EMPTY_BIG_MAP, filled by insertions in a random order, then MEM / GET / UPDATE / GET_AND_UPDATE with the probe key present
+        (first / middle / last), absent (below / between / above), in an empty map; a removal followed by MEM / GET / a re-insertion
+        (pytezos keeps removed keys in a list of their own); the map duplicated and both copies used"""
+        r = self.rng
+        P = lambda prim, *args: {'prim': prim, 'args': list(args)} if args else {'prim': prim}
+        kt = r.choice(SET_ELT)
+        keys, probe, where = self._keys_and_probe(kt)
+        vt = self.gen_type(1)
+        while not pushable(vt):
+            vt = self.gen_type(1)
+        ct = ('big_map', kt, vt)
+        order = list(range(len(keys)))
+        r.shuffle(order)
+        code = [P('EMPTY_BIG_MAP', ty_mich(kt), ty_mich(vt))]
+        for j in order:
+            code += [P('PUSH', ty_mich(('option', vt)), P('Some', self.gen_value(vt, 1))), P('PUSH', ty_mich(kt), keys[j]), P('UPDATE')]
+        self.note('EMPTY_BIG_MAP')
+        self.shape(f'big_map size {len(keys) if len(keys) < 4 else "4+"}')
+        pk = P('PUSH', ty_mich(kt), probe)
+        some = lambda: [P('PUSH', ty_mich(('option', vt)), P('Some', self.gen_value(vt, 1))), pk]
+        none = lambda: [P('PUSH', ty_mich(('option', vt)), P('None')), pk]
+        op = r.choice(['MEM', 'GET', 'UPDATE+', 'UPDATE-', 'GET_AND_UPDATE+', 'GET_AND_UPDATE-', 'UPDATE+;GET', 'UPDATE-;MEM', 'UPDATE-;GET',
+                       'UPDATE-;UPDATE+;GET', 'GET_AND_UPDATE-;GET_AND_UPDATE-', 'DUP;UPDATE;both', 'keep'])
+        self.shape(f'big_map {op}: {where}')
+        new = [ct] + st
+        for prim in ('MEM', 'GET_AND_UPDATE', 'GET', 'UPDATE'):
+            if prim in op.replace('GET_AND_UPDATE', 'X') or (prim == 'GET_AND_UPDATE' and 'GET_AND_UPDATE' in op):
+                self.note(prim)
+        if op == 'MEM':
+            return code + [pk, P('MEM')], [('bool',)] + st
+        if op == 'GET':
+            return code + [pk, P('GET')], [('option', vt)] + st
+        if op == 'UPDATE+':
+            return code + some() + [P('UPDATE')], new
+        if op == 'UPDATE-':
+            return code + none() + [P('UPDATE')], new
+        if op == 'GET_AND_UPDATE+':
+            return code + some() + [P('GET_AND_UPDATE')], [('option', vt)] + new
+        if op == 'GET_AND_UPDATE-':
+            return code + none() + [P('GET_AND_UPDATE')], [('option', vt)] + new
+        if op == 'UPDATE+;GET':
+            return code + some() + [P('UPDATE'), P('DUP'), pk, P('GET')], [('option', vt)] + new
+        if op == 'UPDATE-;MEM':
+            return code + none() + [P('UPDATE'), P('DUP'), pk, P('MEM')], [('bool',)] + new
+        if op == 'UPDATE-;GET':
+            return code + none() + [P('UPDATE'), P('DUP'), pk, P('GET')], [('option', vt)] + new
+        if op == 'UPDATE-;UPDATE+;GET':
+            return code + none() + [P('UPDATE')] + some() + [P('UPDATE'), P('DUP'), pk, P('GET')], [('option', vt)] + new
+        if op == 'GET_AND_UPDATE-;GET_AND_UPDATE-':
+            return code + none() + [P('GET_AND_UPDATE'), P('SWAP')] + none() + [P('GET_AND_UPDATE')], [('option', vt), ct, ('option', vt)] + st
+        if op == 'DUP;UPDATE;both':
+            # a big map is duplicable: updating one copy must not show in the other
+            return code + [P('DUP')] + none() + [P('UPDATE'), pk, P('MEM'), P('SWAP'), pk, P('MEM')], [('bool',), ('bool',)] + st
+        return code, new
 
     def _hash_idiom(self, st):
         """hash a pushed byte string (lengths around the block sizes of the five functions), sometimes twice"""
